@@ -666,6 +666,14 @@ fn build_circuit<C: Mc>(sh: &Shape, o: &Opening<C::F, C::EF>) -> Result<Built<C:
 }
 
 fn run_circuit<C: Mc>(sh: &Shape, bt: &Built<C::EF>, o: &Opening<C::F, C::EF>) -> Result<(), Reject> {
+    run_circuit_traces::<C>(sh, bt, o).map(|_| ())
+}
+
+fn run_circuit_traces<C: Mc>(
+    sh: &Shape,
+    bt: &Built<C::EF>,
+    o: &Opening<C::F, C::EF>,
+) -> Result<p3_circuit::Traces<C::EF>, Reject> {
     // shape compatibility of the tuple with the built circuit
     let row_lens: Vec<usize> = if sh.ext { o.ext.iter().map(Vec::len).collect() } else { o.base.iter().map(Vec::len).collect() };
     assert_eq!(row_lens, bt.row_lens, "harness: circuit built for another row shape");
@@ -720,7 +728,7 @@ fn run_circuit<C: Mc>(sh: &Shape, bt: &Built<C::EF>, o: &Opening<C::F, C::EF>) -
         }
     }
     match catch(|| runner.run()) {
-        Ok(Ok(_)) => Ok(()),
+        Ok(Ok(t)) => Ok(t),
         Ok(Err(e)) => Err(Reject::Run(crate::checks::c02::err_name(&e))),
         Err(p) => Err(Reject::Run(format!("panic:{}", sig_of_panic(&p)))),
     }
@@ -1283,4 +1291,81 @@ pub fn run(ctx: &Ctx) {
         ctx.explore("dim-lies", RULE_DIMS, n, || case_strategy(dim_fault(), 6), oracle_dims);
         ctx.replay_known("dim-lies", oracle_dims);
     }
+}
+
+// ------------------------------------------------------------------------------------------
+// proving the honest opening circuits (sub-check of C10: completeness of the prover on the
+// Merkle-mode permutation tables)
+// ------------------------------------------------------------------------------------------
+
+pub const RULE_PROVE: &str = "honest MMCS opening circuits (arity-2 degree-4 Poseidon2 configurations, base and extension \
+leaves, hiding on/off, caps, mixed heights) built by verify_batch_circuit*, executed, proven with BatchStarkProver \
+(Poseidon2 + recompose tables registered) and verified natively; oracle: run Ok => prove Ok => verify Ok; non-trivial \
+= >= 2 distinct heights or cap height > 0 or hiding; distinct on the shape";
+
+fn prove_honest_cfg<C: Mc, P: crate::pv::Pv<EF = C::EF>>(c: &Case) -> Report {
+    let sh = shape_of::<C>(c);
+    let index = pick(c.index, sh.max_height);
+    let com = commit_and_open::<C>(c, &sh, &[index]);
+    let o = com.openings.last().unwrap().clone();
+    let (classes, nontrivial) = shape_classes::<C>(&sh, o.cap.len(), o.sibs.len());
+    if cap_layer_ambiguous::<C>(&o.dims, o.cap.len()) {
+        return Report::pass().class("excluded_by_known_finding:cap-layer-width-ambiguous");
+    }
+    let bt = match build_circuit::<C>(&sh, &o) {
+        Ok(b) => b,
+        Err(r) => return Report::discard(format!("circuit not buildable: {}", r.name().chars().take(40).collect::<String>())),
+    };
+    let traces = match run_circuit_traces::<C>(&sh, &bt, &o) {
+        Ok(t) => t,
+        Err(r) => return Report::discard(format!("honest run rejected (C08's business): {}", r.name().chars().take(40).collect::<String>())),
+    };
+    let npo = crate::pv::NpoSel {
+        recompose: true,
+        debug_lookups: false,
+        poseidon2: Some(C::cfg()),
+    };
+    let pk = p3_circuit_prover::TablePacking::new(1 + (c.data_mode as usize % 3), 1 + (c.cap_height as usize % 4));
+    let rep = Report::pass()
+        .classes(classes)
+        .class(format!("cfg:{}", C::NAME))
+        .nontrivial(nontrivial)
+        .key(hash_of(&(c.cfg % N_CFG, sh.ext, sh.hiding, sh.cap_height, &sh.heights, &sh.widths)));
+    match P::prove_verify(&bt.circuit, &traces, &pk, &npo) {
+        Ok(()) => rep.class("outcome:proved+verified"),
+        Err(crate::pv::PvErr::Setup(m)) if m.starts_with("UnclaimedPrivateInput") => {
+            // documented restriction: salts given as private inputs whose only consumer is a hash
+            Report::discard("documented: unclaimed private input (salt consumed only by the hash)")
+        }
+        Err(e) => {
+            let dbg = match P::prove_verify(&bt.circuit, &traces, &pk, &crate::pv::NpoSel { debug_lookups: true, ..npo.clone() }) {
+                Err(crate::pv::PvErr::ProvePanic(m)) => format!(" | lookup debugger: {}", m.chars().take(400).collect::<String>()),
+                _ => String::new(),
+            };
+            let mut r = rep;
+            r.verdict = crate::fw::Verdict::Fail {
+                sig: format!("C10/mmcs-circuit:{}:{}", e.kind(), variant::<C>(&sh)),
+                msg: format!("honest MMCS opening circuit ran Ok but {}: {}{}", e.kind(), e.msg().chars().take(300).collect::<String>(), dbg),
+            };
+            r.nontrivial = true;
+            r
+        }
+    }
+}
+
+pub fn oracle_prove_honest(c: &Case) -> Report {
+    match c.cfg % N_CFG {
+        0 => prove_honest_cfg::<KbD4W16, crate::fields::Kb4>(c),
+        2 => prove_honest_cfg::<BbD4W16, crate::fields::Bb4>(c),
+        _ => Report::discard("configuration has no prover table support in the harness"),
+    }
+}
+
+pub fn prove_case_strategy() -> impl Strategy<Value = Case> {
+    case_strategy(Just(Fault::None), 4).prop_map(|mut c| {
+        c.cfg = if c.cfg % 2 == 0 { 0 } else { 2 };
+        c.sweep = false;
+        c.max_height = c.max_height.min(32);
+        c
+    })
 }
